@@ -360,7 +360,7 @@ const ruleC16 = "generated histories over 2-4 logs, both storages; after every r
 
 var profC16 = vlib.Profile{
 	Prop: "C16", MinLogs: 2, MaxLogs: 4, MinOps: 3, MaxOps: 20,
-	Storages: []string{"mem", "sql"}, MaxJump: 200, OtherLogPct: 50, Decorate: 10, SharedKeys: true,
+	Storages: []string{"mem", "sql"}, MaxJump: 200, OtherLogPct: 50, Decorate: 10, SharedKeys: true, NonCanonPct: 5,
 	Weights: map[string]int{"grow": 40, "refresh": 8, "fork": 8, "wrongold": 6, "badproof": 10, "garbage": 6, "wrongkey": 8, "wrongorigin": 4, "unknownlog": 3, "smaller": 3, "decorated": 4},
 }
 
